@@ -72,6 +72,7 @@ type Ctx struct {
 	cg         *CG
 	flows      map[string]*FlowAnalysis
 	writerSet  map[*ssa.Function]bool
+	outDir     string
 
 	rules   []*RuleInfo
 	ruleIx  map[string]*RuleInfo
@@ -488,6 +489,9 @@ func (c *Ctx) Finish(verifDir, explanation string, undecided []string, extra map
 		return 2
 	}
 	evDir := filepath.Join(verifDir, "evidence")
+	if c.outDir != "" {
+		evDir = c.outDir
+	}
 	rpDir := filepath.Join(evDir, "replay")
 	os.MkdirAll(rpDir, 0o755)
 	// remove stale replay files of this property
